@@ -21,6 +21,9 @@ def run(ctx):
     rule_T3(ctx)
     rule_U1(ctx)
     rule_A8(ctx)
+    from ..sampler_rules import rule_A9
+    k9 = rule_A9(ctx)
+    ctx.require(k9 >= 2, 'A9: no marker written for empty shells found (floor 2)')
     rule_T8i(ctx)
     rule_Q3(ctx)
     rule_A2_A6(ctx)
